@@ -4,14 +4,14 @@ import os
 HERE = os.path.dirname(os.path.abspath(__file__))
 T = """SPECIFICATION MCSpec
 CONSTANTS
- N = {n}
- Auth = {auth}
- Enc = {enc}
- Chunked = {chunked}
- Variant = "select"
- MACLEN = 2
- BLK = 2
- BUFSZ = {bufsz}
+ CN = {n}
+ CAuth = {auth}
+ CEnc = {enc}
+ CChunked = {chunked}
+ CVariant = "select"
+ CMACLEN = 2
+ CBLK = 2
+ CBUFSZ = {bufsz}
  Delim = 63
  NoVal <- NoValMC
  Rcv = 1
@@ -39,7 +39,9 @@ mk("authb",   1, 0, 0, "Prog1_3", 1, "ByteKinds", "1", tagnl="TagNLb")
 mk("enc",     0, 1, 0, "Prog1_3", ivnl="1")
 mk("authenc", 1, 1, 0, "Prog1_3", 1, "AllKinds", "3", tagnl="TagNLa", ivnl="0")
 mk("chk",     1, 1, 1, "Prog1_2", 1, "AllKinds", "3", tagnl="TagNLa")
-mk("two",     1, 0, 0, "Prog2_2", 0, "AllKinds", "1,2,3", tagnl="TagNLa")
+mk("two",     1, 0, 0, "Prog2_21", 0, "AllKinds", "1,2,3", tagnl="TagNLa")
+mk("two22",   1, 0, 0, "Prog2_2", 0, "AllKinds", "1,2,3", tagnl="TagNLa")
+mk("authenc2", 1, 1, 0, "Prog1_2", 1, "AllKinds", "3", tagnl="TagNLa", ivnl="0")
 mk("arr",     1, 0, 0, "ProgArr", arrsize=2, invs="ArraysWholeI")
 mk("arrchk",  0, 1, 1, "ProgArr", arrsize=2, invs="ArraysWholeI")
 mk("arr2",    0, 0, 1, "ProgArr2", scheds="1,2", arrsize=2, invs="ArraysWholeI")
@@ -49,3 +51,5 @@ mk("auth2f",  1, 0, 0, "Prog1_2", 2, "AllKinds", "3", tagnl="TagNLa")
 mk("authenc2f", 1, 1, 0, "Prog1_2", 2, "ByteKinds", "3", tagnl="TagNLb", ivnl="1")
 mk("smallbuf", 1, 1, 0, "Prog1_3", 0, "AllKinds", "1,3", tagnl="TagNLa", bufsz=6)
 mk("three",   1, 1, 0, "Prog3_1", 0, "AllKinds", "1,2,3", n=3)
+mk("auth2f3", 1, 0, 0, "Prog1_3", 2, "ByteKinds", "3", tagnl="TagNLa")
+mk("authenc3k", 1, 1, 0, "Prog1_3eq", 1, "AllKinds", "1,3", tagnl="TagNLb", ivnl="1")
